@@ -326,3 +326,9 @@ def run(run, tier, loadcfg):
     cx = Ctx(loadcfg(cfg))
     check_process(run, cx, cfg)
     check_sources_sinks(run, cx, cfg)
+    # a nested graph is graph processing too: GraphNode::process must copy the outer inputs in, run the inner processor on
+    # the inner output node, copy the outputs out -- in this order (the C16 rule, filed here as a dependency), or a graph
+    # that contains one does not equal its functional evaluation
+    from report import Prefixed
+    from rules import C16
+    C16.check_graph_node(Prefixed(run, 'dep.C16.'), cx, cfg)
